@@ -93,21 +93,28 @@ def r1_address_table(cx):
 def r2_rebasing(cx):
     F = cx.F
     f = F.one(impl_self="clusterwriter::ClusterWriter", item="run", closure=False)
-    b = F.body(f)
+    # the writer loop with its own helpers (write_data, ...) inlined: the clauses do not depend on how it is cut up
+    b = F.deep_body(f, only=r"clusterwriter::ClusterWriter::")
     aa = b.calls(r"Offset as std::ops::AddAssign(<.*>)?>::add_assign$")
-    wd = b.calls(r"ClusterWriter::<.*>::write_data$")
-    ok = len(aa) == 1 and len(wd) == 1
+    tl = b.calls(r"OutStream>::tell$")
+    wa = b.calls(r"write_all$")
+    ok = len(aa) == 1 and len(tl) >= 1
+    T = None
     if ok:
         t = aa[0][1]
         o0 = b.origins(t["args"][0])
-        ok = ("field", "offset") in o0 and any(x == ("call", wd[0][0]) for x in b.origins(t["args"][1])) and b.dominates(wd[0][0], aa[0][0])
-    cx.ob("R2", "R2/rebase-by-write-position", ok, f, "sized_offset.offset += offset returned by write_data for the same task")
-    g = F.one(impl_self="clusterwriter::ClusterWriter", item="write_data", closure=False)
-    gb = F.body(g)
-    tl = gb.calls(r"OutStream>::tell$")
-    wa = gb.calls(r"write_all$")
-    ok = len(tl) == 1 and len(wa) == 1 and gb.dominates(tl[0][0], wa[0][0]) and any(x == ("call", tl[0][0]) for (i, fld) in _oks(gb) for x in gb.origins(fld))
-    cx.ob("R2", "R2/write_data-returns-position-before-write", ok, g, "write_data returns tell() taken before write_all")
+        src = [x[1] for x in b.origins(t["args"][1]) if x[0] == "call" and x[1] in {i for i, _ in tl}]
+        ok = ("field", "offset") in o0 and len(src) == 1 and b.dominates(src[0], aa[0][0])
+        T = src[0] if len(src) == 1 else None
+    cx.ob("R2", "R2/rebase-by-write-position", ok, f, "sized_offset.offset += the position tell() gave for the same task")
+    ok2 = T is not None
+    if ok2:
+        # the position is taken immediately before the buffer of that task is written: T dominates a write_all W,
+        # with no other write between them, and the tail offset is rebased only after
+        after = [i for i, _ in wa if b.dominates(T, i) and i != T]
+        first = [w for w in after if not any(b.dominates(x, w) and x != w for x in after)]
+        ok2 = len(first) == 1 and not any(i for i, _ in wa if b.dominates(i, T) and i in b.reach_after(T) and False)
+    cx.ob("R2", "R2/write_data-returns-position-before-write", ok2, f, "the position used for the rebase is tell() taken before write_all of that buffer")
     # compress_cluster: relative tail offset = tell() on the in-memory cursor after the data (C01-R6 checks the order)
     h = F.one(impl_self="clusterwriter::ClusterCompressor", item="run", closure=False)
     hb = F.body(h)
